@@ -230,7 +230,7 @@ def gen_scenarios():
     def b64(b):
         return base64.b64encode(b).decode()
 
-    reps = 1 if QUICK else 5
+    reps = 1 if QUICK else 3
     for rep in range(reps):
         # both preconditions in thorough; in quick the seed picks one per kind
         def pres():
@@ -582,16 +582,26 @@ def do_scenario(bins, sc):
         k = sum(1 for e in ev[:idx + 1] if e["tid"] == etid and e["name"] == name)
         plan.append(dict(pos=pos, ab=ab, name=name, when=k))
     nrel = rel_pos
-    # quick tier: thin out long runs of identical abstract syscalls (first/middle/last)
-    if QUICK:
-        groups = {}
-        for p in plan:
-            groups.setdefault(p["ab"], []).append(p)
-        keep = set()
-        for ab, g in groups.items():
-            for j in sorted(set([0, len(g) // 2, len(g) - 1])):
-                keep.add(g[j]["pos"])
-        plan = [p for p in plan if p["pos"] in keep]
+    # long runs of the same abstract syscall (a big file streamed in many writes) are
+    # thinned for the REAL injections: quick first/middle/last, thorough first 3, last 3
+    # and 2 seeded ones in between. (The model enumeration above covers every prefix.)
+    groups = {}
+    for p in plan:
+        groups.setdefault(p["ab"], []).append(p)
+    keep = set()
+    trnd = random.Random("C06/%d/thin/%d" % (SEED, sc["idx"]))
+    for ab, g in groups.items():
+        if QUICK:
+            sel = sorted(set([0, len(g) // 2, len(g) - 1]))
+        elif len(g) <= 8:
+            sel = range(len(g))
+        else:
+            sel = [0, 1, 2, len(g) - 3, len(g) - 2, len(g) - 1] + trnd.sample(range(3, len(g) - 3), 2)
+        for j in sel:
+            keep.add(g[j]["pos"])
+    if len(keep) < len(plan):
+        count("injection_positions_thinned", len(plan) - len(keep))
+    plan = [p for p in plan if p["pos"] in keep]
     clean_abs = [ab for (idx, ab, etid, name) in res["relevant"] if lo < idx < hi]
     jobs = []
     for p in plan:
@@ -844,6 +854,9 @@ def main():
         for sc in scs:
             shutil.rmtree(os.path.join(WORK, "sc%03d" % sc["idx"]), ignore_errors=True)
     COUNTERS["build_s"] = int(tb - T0)
+    tm = os.times()
+    COUNTERS["checker_cpu_s"] = int(tm.user + tm.system)
+    COUNTERS["children_cpu_s"] = int(tm.children_user + tm.children_system)
     floors = {"traces_clean": 10, "traces_real_state_backend": 2, "crash_prefixes_enumerated": 150,
               "durable_states_enumerated": 300, "kill_injections_on_intended_syscall": 40,
               "errno_injections_on_intended_syscall": 40, "fsync_file_seen": 10, "fsync_dir_seen": 10,
